@@ -216,6 +216,15 @@ func expandFourSides(baseURL string, name pr.Shortand, tokens []Token) (out expa
 		return result, nil
 	}
 
+	if len(tokens) > 1 {
+		// 'inherit' and 'initial' are only valid as the whole value
+		for _, token := range tokens {
+			if keyword := getKeyword(token); keyword == "inherit" || keyword == "initial" {
+				return nil, fmt.Errorf("'%s' can't be combined with other values", keyword)
+			}
+		}
+	}
+
 	// Make sure we have 4 tokens
 	if len(tokens) == 1 {
 		tokens = []Token{tokens[0], tokens[0], tokens[0], tokens[0]}
